@@ -17,6 +17,9 @@ record("_DataFiles", fields={"project": "Project"}, pyclass="rope.base.project:_
 specfun("file_of", ["_DataFiles", "Str"], "File", note="the resource .ropeproject/<name>")
 specfun("path_of", ["FileObj"], "Str", note="the path a stream was opened on")
 specfun("mode_of", ["FileObj"], "Str")
+specfun("on_disk", ["File"], "Bool", note="the data file exists")
+contract("File.exists", abstract=True, pure=True, params={"self": "File"}, returns="Bool", ensures=["result == on_disk(self)"],
+         note="(part of the environment so that a variant of write_data that looks at the old file is still judged against the open/dump contracts)")
 contract("_DataFiles._get_file", abstract=True, pure=True, params={"self": "_DataFiles", "name": "Str"}, returns="File", ensures=["result == file_of(self, name)"])
 contract("ExitStack.__init__", abstract=True, params={"self": "ExitStack"})
 contract("ExitStack.enter_context", abstract=True, params={"self": "ExitStack", "cm": "FileObj"}, returns="FileObj", ensures=["result == cm"],
